@@ -76,7 +76,10 @@ func rowID(b *bo.BoxFields) int {
 // fragment of it that page number `page` holds when the table is split over pages (the rows are
 // then identified by the <tr> they come from: a fragment starts anywhere, repeats the header and
 // footer groups, and its first and last row may be parts of a row split between two pages).
-func verify(d *doc, g *refGrid, t *bo.TableBox, page int, rp reporter) outcome {
+//
+// cont holds the source rows of this fragment that are split by the page break: rows (of a body
+// group) that continue on the next page.
+func verify(d *doc, g *refGrid, t *bo.TableBox, page int, cont map[int]bool, rp reporter) outcome {
 	hs, vs := d.spacing()
 	cw, cp := t.ColumnWidths, t.ColumnPositions
 	ncols := len(cw)
@@ -302,13 +305,21 @@ func verify(d *doc, g *refGrid, t *bo.TableBox, page int, rp reporter) outcome {
 	}
 	for i := 1; i < len(rows); i++ {
 		gap := rows[i].top - (rows[i-1].top + rows[i-1].h)
-		if rowOrigin[i] && rowOrigin[i-1] {
+		if cont[g.rows[rows[i-1].ref].src] {
+			// the upper row is cut by the page break and what follows it on this page is the
+			// repeated footer group: whether the part of a row is followed by the spacing is not
+			// settled by the statement (the implementation puts the footer right below it)
+			rp.count("rows-below-a-row-split-by-the-page-break", 1)
+			if !near(gap, vs) && !near(gap, 0) {
+				rp.fail("row-adjacency", fmt.Sprintf("page %d: rows %d (split by the page break) and %d are %g apart, border-spacing is %g", page, rows[i-1].ref, rows[i].ref, gap, vs))
+			}
+		} else if rowOrigin[i] && rowOrigin[i-1] {
 			rp.count("adjacent-row-pairs", 1)
 			if !near(gap, vs) {
-				rp.fail("row-adjacency", fmt.Sprintf("rows %d and %d are %g apart, border-spacing is %g", i-1, i, gap, vs))
+				rp.fail("row-adjacency", fmt.Sprintf("rows %d and %d are %g apart, border-spacing is %g", rows[i-1].ref, rows[i].ref, gap, vs))
 			}
 		} else if !near(gap, vs) && !near(gap, 0) {
-			rp.fail("row-adjacency", fmt.Sprintf("rows %d and %d (one without cells) are %g apart, border-spacing is %g", i-1, i, gap, vs))
+			rp.fail("row-adjacency", fmt.Sprintf("rows %d and %d (one without cells) are %g apart, border-spacing is %g", rows[i-1].ref, rows[i].ref, gap, vs))
 		}
 	}
 
@@ -383,4 +394,15 @@ func verify(d *doc, g *refGrid, t *bo.TableBox, page int, rp reporter) outcome {
 		}
 	}
 	return outcome{key.String(), len(cells) >= 2}
+}
+
+// fragmentRows lists the source rows (ids of the <tr>) of the row boxes of a table fragment.
+func fragmentRows(t *bo.TableBox) []int {
+	var out []int
+	for _, grp := range t.Children {
+		for _, r := range grp.Box().Children {
+			out = append(out, rowID(r.Box()))
+		}
+	}
+	return out
 }
